@@ -52,6 +52,11 @@ def _scalar_term_op(op, ta, tb, k):
         return ta * tb
     if op == "/":
         return ta / tb
+    if op == "**":
+        e = z3.simplify(tb)
+        if (z3.is_int_value(e) and e.as_long() == 2) or (z3.is_rational_value(e) and e.numerator_as_long() == 2 and e.denominator_as_long() == 1):
+            return ta * ta
+        raise Untranslatable("power of a symbolic-extent array (only **2)")
     if op in ("<", "<=", ">", ">=", "==", "!="):
         return {"<": ta < tb, "<=": ta <= tb, ">": ta > tb, ">=": ta >= tb, "==": ta == tb, "!=": ta != tb}[op]
     raise Untranslatable(f"symbolic-extent array operator {op}")
@@ -82,7 +87,24 @@ def binary(np_, op, a, b):
         xa = elem_term(ta, idx, k) if ta is not None else term_of(raw(a), k)
         xb = elem_term(tb, idx, k) if tb is not None else term_of(raw(b), k)
         return _scalar_term_op(op, xa, xb, k)
-    return from_fn(np_, shape, dt, f)
+    res = from_fn(np_, shape, dt, f)
+    # element-wise operation on a slice base[lo:hi] (with a scalar, or with the same slice of another array): still a slice
+    so_a = ta.slice_of if ta is not None else None
+    so_b = tb.slice_of if tb is not None else None
+    if (so_a or so_b) and not (ta is not None and tb is not None and not (so_a and so_b and z3.eq(so_a[1], so_b[1]) and z3.eq(so_a[2], so_b[2]))):
+        ref = so_a or so_b
+        j = fresh_index(np_, 1)[0]
+        xa = (z3.Select(so_a[0], j) if so_a else term_of(raw(a), k)) if ta is not None else term_of(raw(a), k)
+        xb = (z3.Select(so_b[0], j) if so_b else term_of(raw(b), k)) if tb is not None else term_of(raw(b), k)
+        if ta is not None and so_a and ta.dtype.kind != "f" and k == "float":
+            xa = z3.ToReal(xa)
+        if tb is not None and so_b and tb.dtype.kind != "f" and k == "float":
+            xb = z3.ToReal(xb)
+        if op == "**" and so_a and ta.dtype.kind == res.dtype.kind:
+            res.slice_of = (square_term(so_a[0]), ref[1], ref[2])      # one canonical term for "the squares of this array"
+        else:
+            res.slice_of = (z3.Lambda([j], _scalar_term_op(op, xa, xb, k)), ref[1], ref[2])
+    return res
 
 
 def _kd(x):
@@ -116,10 +138,21 @@ def norm_int_index(np_, i, n):
     ok = z3.And(it >= -nt, it < nt)
     if not np_.I.ctx.branch(ok):
         raise Raised(IndexError("index out of bounds"))
+    if z3.is_int_value(z3.simplify(it)):
+        return z3.simplify(z3.If(it < 0, it + nt, it))
+    if np_.I.ctx.entails(it >= 0):
+        return z3.simplify(it)
+    if np_.I.ctx.entails(it < 0):
+        return z3.simplify(it + nt)
     return z3.simplify(z3.If(it < 0, it + nt, it))
 
 
 def getitem(np_, a, idx):
+    if isinstance(idx, TArr):
+        # a[index array] (1-D): element i is a[idx[i]]  (indices are assumed in range: they come from argsort)
+        if a.ndim != 1 or idx.ndim != 1 or idx.dtype.kind not in "iu":
+            raise Untranslatable("advanced indexing of symbolic-extent arrays (only 1-D integer index arrays)")
+        return from_fn(np_, idx.shape, a.dtype, lambda i: z3.Select(a.term, z3.Select(idx.term, i)))
     if not isinstance(idx, tuple):
         idx = (idx,)
     if any(x is Ellipsis for x in idx):
@@ -147,6 +180,8 @@ def getitem(np_, a, idx):
     if not out_axes:
         t = z3.simplify(z3.Select(a.term, *[f[1] for f in fixed]))
         return mk(t, kind_of_dtype(a.dtype), True)
+    if a.ndim == 1 and isinstance(idx[0], TArr):
+        pass
 
     def f(*jdx):
         it = iter(jdx)
@@ -154,13 +189,20 @@ def getitem(np_, a, idx):
         for kind, v in fixed:
             full.append(v if kind == "int" else next(it) + v)
         return z3.Select(a.term, *full)
-    return from_fn(np_, tuple(out_axes), a.dtype, f)
+    res = from_fn(np_, tuple(out_axes), a.dtype, f)
+    if a.ndim == 1 and fixed[0][0] == "slice":
+        lo = fixed[0][1]
+        base, off = (a.slice_of[0], a.slice_of[1]) if a.slice_of else (a.term, z3.IntVal(0))
+        res.slice_of = (base, z3.simplify(off + lo), z3.simplify(off + lo + term_of(raw(out_axes[0]), "int")))
+    return res
 
 
 def _slice_bound(np_, v, n, default):
     if v is None:
         return default if z3.is_expr(default) else z3.IntVal(default)
     t = term_of(raw(v), "int")
+    if not z3.is_int_value(z3.simplify(t)) and np_.I.ctx.entails(z3.And(t >= 0, t <= n)):
+        return z3.simplify(t)
     t = z3.If(t < 0, t + n, t)
     return z3.simplify(z3.If(t < 0, 0, z3.If(t > n, n, t)))
 
@@ -176,6 +218,21 @@ def setitem(np_, a, idx, v):
 
 
 _SUMS = {}
+_SQUARES = {}
+
+
+def square_term(t):
+    """the array of the squares of the 1-D array term t: an opaque array constant (the same one every time it is asked
+    for).  Its defining property  sq[j] = t[j]*t[j]  is deliberately not given to the solver: the obligations that mention it
+    (sums of squared weights over slices) hold for any array, and the product would drag in nonlinear arithmetic."""
+    key = t.get_id()
+    if z3.is_K(t):       # a constant array: its squares are the constant array of the square
+        c = t.arg(0)
+        return z3.K(z3.IntSort(), z3.simplify(c * c))
+    if key not in _SQUARES:
+        _SQUARES[key] = (t, z3.Const(f"%squares!{len(_SQUARES)}", t.sort()))
+    return _SQUARES[key][1]
+
 
 
 def sum_fn(kind):
@@ -189,6 +246,8 @@ def sum_fn(kind):
         zero = z3.RealVal(0) if kind == "float" else z3.IntVal(0)
         z3.RecAddDefinition(f, [a, lo, hi], z3.If(hi <= lo, zero, f(a, lo, hi - 1) + z3.Select(a, hi - 1)))
         _SUMS[kind] = f
+        from . import induct
+        induct.register(f, lambda g, A, lo, hi: z3.If(hi <= lo, zero, g(A, lo, hi - 1) + z3.Select(A, hi - 1)))
     return _SUMS[kind]
 
 
@@ -226,9 +285,32 @@ def array_attr(np_, a, name):
             kd = kind_of_dtype(a.dtype)
             if kd == "bool":
                 raise Untranslatable("sum of bool symbolic-extent array")
-            t = sum_fn(kd)(a.term, z3.IntVal(0), term_of(raw(a.shape[0]), "int"))
+            if a.slice_of is not None:
+                base, lo, hi = a.slice_of
+                t = sum_fn(kd)(base, lo, hi)
+            else:
+                t = sum_fn(kd)(a.term, z3.IntVal(0), term_of(raw(a.shape[0]), "int"))
             return mk(t, kd, True)
         return Builtin("sum", sum_)
+    if name in ("max", "min"):
+        def extremum(*x, **k):
+            if a.ndim != 1:
+                raise Untranslatable("max/min of n-d symbolic-extent array")
+            ctx = np_.I.ctx
+            n = term_of(raw(a.shape[0]), "int")
+            if not ctx.branch(n > 0):
+                raise Raised(ValueError(f"zero-size array to reduction operation {name}imum which has no identity"))
+            kd = kind_of_dtype(a.dtype)
+            m = (z3.Real if kd == "float" else z3.Int)(ctx.fresh_name(name))
+            i, j = z3.Int(ctx.fresh_name("i")), z3.Int(ctx.fresh_name("j"))
+            x = z3.Select(a.term, i)
+            ctx.assume(z3.And(z3.ForAll([i], z3.Implies(z3.And(i >= 0, i < n), x <= m if name == "max" else x >= m)),
+                              z3.Exists([j], z3.And(j >= 0, j < n, z3.Select(a.term, j) == m))), "stub " + name)
+            return Sym(m, kd, True)
+        return Builtin(name, extremum)
+    if name == "flatten":
+        if a.ndim == 1:
+            return Builtin("flatten", lambda *x: TArr(a.term, a.shape, a.dtype))
     raise Untranslatable(f"ndarray.{name} on symbolic-extent array")
 
 
@@ -295,3 +377,35 @@ def searchsorted(np_, a, v, side="left"):
                       z3.ForAll([j], z3.Implies(z3.And(j >= 0, j < r), before)),
                       z3.ForAll([j], z3.Implies(z3.And(j >= r, j < n), after))), "stub searchsorted")
     return Sym(r, "int", True)
+
+
+def zeros(np_, shape, dtype):
+    dt = _np.dtype(dtype)
+    zero = z3.RealVal(0) if dt.kind == "f" else (z3.IntVal(0) if dt.kind in "iu" else z3.BoolVal(False))
+    if len(tuple(shape)) == 1:
+        return TArr(z3.K(z3.IntSort(), zero), tuple(shape), dt)
+    return from_fn(np_, tuple(shape), dt, lambda *idx: zero)
+
+
+def ones_like(np_, a, dtype=None):
+    dt = _np.dtype(dtype or a.dtype)
+    one = z3.RealVal(1) if dt.kind == "f" else z3.IntVal(1)
+    if a.ndim == 1:
+        return TArr(z3.K(z3.IntSort(), one), a.shape, dt)
+    return from_fn(np_, a.shape, dt, lambda *idx: one)
+
+
+def argsort(np_, a):
+    """Assumed contract: p is a permutation of 0..n-1 (range + injectivity) and a[p[i]] is non-decreasing."""
+    if a.ndim != 1:
+        raise Untranslatable("argsort of n-d symbolic-extent array")
+    ctx = np_.I.ctx
+    n = term_of(raw(a.shape[0]), "int")
+    p = z3.Array(ctx.fresh_name("argsort"), z3.IntSort(), z3.IntSort())
+    i, j = z3.Int(ctx.fresh_name("i")), z3.Int(ctx.fresh_name("j"))
+    ctx.assume(z3.ForAll([i], z3.Implies(z3.And(i >= 0, i < n), z3.And(z3.Select(p, i) >= 0, z3.Select(p, i) < n))), "stub argsort: range")
+    ctx.assume(z3.ForAll([i, j], z3.Implies(z3.And(i >= 0, i < j, j < n), z3.Select(p, i) != z3.Select(p, j))), "stub argsort: injective")
+    ctx.assume(z3.ForAll([i], z3.Implies(z3.And(i >= 0, i < n - 1),
+                                         z3.Select(a.term, z3.Select(p, i)) <= z3.Select(a.term, z3.Select(p, i + 1)))), "stub argsort: sorted")
+    r = TArr(p, a.shape, _np.int64)
+    return r
